@@ -928,17 +928,122 @@ Section Meta.
   Lemma rebuild_now_wf st : wf st -> wf (rebuild_now st).
   Proof. intros W. exact W. Qed.
 
-  (** ** Histories of refreshes, set_url calls and engine rebuilds *)
+  (** ** A restart of the process: the lists go through the configuration
+      file and [loadFilters] *)
+
+  Lemma dedup_in : forall ls seen x, In x (dedup_urls seen ls) -> In x ls.
+  Proof.
+    induction ls as [|f ls IH]; intros seen x; cbn [dedup_urls]; [tauto|].
+    destruct (existsb _ seen); [intros H; right; eauto|]. intros [->|H]; [now left|right; eauto].
+  Qed.
+
+  Lemma dedup_forall (P : flist -> Prop) ls seen : Forall P ls -> Forall P (dedup_urls seen ls).
+  Proof.
+    intros H. apply Forall_forall. intros x Hx. apply dedup_in in Hx.
+    exact (proj1 (Forall_forall _ _) H x Hx).
+  Qed.
+
+  Lemma dedup_ids_sub ls seen j : In j (map f_id (dedup_urls seen ls)) -> In j (map f_id ls).
+  Proof.
+    intros H. apply in_map_iff in H. destruct H as (x & <- & Hx). apply dedup_in in Hx. now apply in_map.
+  Qed.
+
+  Lemma dedup_nodup_ids : forall ls seen, NoDup (map f_id ls) -> NoDup (map f_id (dedup_urls seen ls)).
+  Proof.
+    induction ls as [|f ls IH]; intros seen ND; cbn [dedup_urls]; [constructor|].
+    inversion ND as [|? ? Hn ND']; subst.
+    destruct (existsb _ seen); [now apply IH|]. cbn [map]. constructor; [|now apply IH].
+    intros H. apply Hn. eapply dedup_ids_sub; eauto.
+  Qed.
+
+  (** Entries with pairwise different URLs (what [filterExistsLocked] keeps up)
+      all survive [deduplicateFilters]. *)
+  Lemma dedup_nodup_urls : forall ls seen,
+    NoDup (map f_url ls) -> (forall u, In u seen -> ~ In u (map f_url ls)) -> dedup_urls seen ls = ls.
+  Proof.
+    induction ls as [|f ls IH]; intros seen ND Hs; cbn [dedup_urls]; [reflexivity|].
+    inversion ND as [|? ? Hn ND']; subst.
+    destruct (existsb (N.eqb (f_url f)) seen) eqn:E.
+    - exfalso. apply existsb_exists in E. destruct E as (u & Hu & E). apply N.eqb_eq in E. subst u.
+      apply (Hs _ Hu). now left.
+    - f_equal. apply IH; auto. intros u [<-|Hu]; [exact Hn|]. intros H. apply (Hs u Hu). now right.
+  Qed.
+
+  Lemma load_file_fields f fs :
+    f_id (load_file crc f fs) = f_id f /\ f_url (load_file crc f fs) = f_url f /\
+    f_enabled (load_file crc f fs) = f_enabled f.
+  Proof.
+    unfold load_file. destruct (fget (f_id f) fs) as [c|]; [|auto].
+    destruct (parse crc c false) as [st [e|]]; auto.
+  Qed.
+
+  Lemma load_entry_fields all fs f :
+    f_id (load_entry crc all fs (persisted f)) = f_id f /\
+    f_url (load_entry crc all fs (persisted f)) = f_url f /\
+    f_enabled (load_entry crc all fs (persisted f)) = f_enabled f.
+  Proof.
+    unfold load_entry. destruct (_ || all); [apply (load_file_fields (persisted f) fs)|auto].
+  Qed.
+
+  Lemma start_array_ids all fs ls :
+    map f_id (map (fun f => load_entry crc all fs (persisted f)) ls) = map f_id ls.
+  Proof. rewrite map_map. apply map_ext. intros f. apply load_entry_fields. Qed.
+
+  (** An entry that was in step with the files is in step again after it has
+      gone through the configuration file and [loadFilters]: an enabled list
+      gets the rule count and checksum of its file, a disabled list is not
+      loaded. *)
+  Lemma load_persisted_ok fs f : list_ok fs f -> list_ok fs (load_entry crc false fs (persisted f)).
+  Proof.
+    intros OK. unfold list_ok, load_entry, load_file in *. cbn [persisted f_enabled f_id]. rewrite orb_false_r.
+    destruct (f_enabled f) eqn:En; cbv iota in *;
+      [|unfold persisted; cbn [f_enabled f_count f_sum]; rewrite En; auto].
+    destruct (fget (f_id f) fs) as [c|] eqn:G.
+    - destruct OK as (st & P & O & C & S). rewrite P. cbn [filled f_enabled f_id f_count f_sum persisted].
+      rewrite En, G. exists st. auto.
+    - unfold persisted. cbn [f_enabled f_id f_count f_sum]. rewrite En, G. auto.
+  Qed.
+
+  Lemma nodup_app_intro {A} (a b : list A) :
+    NoDup a -> NoDup b -> (forall x, In x a -> ~ In x b) -> NoDup (a ++ b).
+  Proof.
+    induction a as [|h a IH]; cbn [app]; intros Na Nb D; [exact Nb|].
+    inversion Na as [|? ? Hn Na']; subst. constructor.
+    - intros H. apply in_app_iff in H. destruct H as [H|H]; [auto|]. apply (D h); [now left|exact H].
+    - apply IH; auto. intros x Hx. apply D. now right.
+  Qed.
+
+  (** A restart keeps the metadata in step with the files. *)
+  Theorem restart_wf st : wf st -> wf (restart crc st).
+  Proof.
+    intros [ND OK]. rewrite map_app in ND. apply Forall_app in OK. destruct OK as [OKb OKa].
+    pose proof (nodup_app_l _ _ ND) as NDb. pose proof (nodup_app_r _ _ ND) as NDa.
+    unfold restart, restart_v, wf, start_array. cbn [r_block r_allow r_files]. split.
+    - rewrite map_app. apply nodup_app_intro.
+      + apply dedup_nodup_ids. now rewrite start_array_ids.
+      + apply dedup_nodup_ids. now rewrite start_array_ids.
+      + intros j Hb Ha. apply dedup_ids_sub in Hb, Ha. rewrite start_array_ids in Hb, Ha.
+        exact (nodup_app_disjoint _ _ j ND Hb Ha).
+    - apply Forall_app. split; apply dedup_forall, Forall_forall; intros x Hx;
+        apply in_map_iff in Hx; destruct Hx as (f & <- & Hf); apply load_persisted_ok.
+      + exact (proj1 (Forall_forall _ _) OKb f Hf).
+      + exact (proj1 (Forall_forall _ _) OKa f Hf).
+  Qed.
+
+  (** ** Histories of refreshes, set_url calls, engine rebuilds and restarts
+      of the process *)
   Inductive hop :=
     | HRefresh (block allow force : bool) (due : N -> bool) (oc : N -> outcome)
     | HSet (allow : bool) (url : N) (name : bytes) (nurl : N) (enabled : bool) (o : outcome)
-    | HRebuild.
+    | HRebuild
+    | HRestart.
 
   Definition run_hop (st : rstate) (h : hop) : rstate :=
     match h with
     | HRefresh b a f due oc => refresh b a f due oc st
     | HSet a u name nu en o => snd (set_props a u name nu en o st)
     | HRebuild => rebuild_now st
+    | HRestart => restart crc st
     end.
 
   Definition run_hist (hs : list hop) (st : rstate) : rstate := fold_left run_hop hs st.
@@ -946,7 +1051,8 @@ Section Meta.
   Theorem history_wf hs : forall st, wf st -> wf (run_hist hs st).
   Proof.
     unfold run_hist. induction hs as [|h hs IH]; intros st W; cbn [fold_left]; auto.
-    apply IH. destruct h; cbn [run_hop]; [now apply refresh_wf|now apply set_props_wf|exact W].
+    apply IH. destruct h; cbn [run_hop];
+      [now apply refresh_wf|now apply set_props_wf|exact W|now apply restart_wf].
   Qed.
 
   (** After any history: the rule count and checksum of every enabled list
